@@ -21,4 +21,5 @@ def run(ctx, res):
     r8.rule_joins(S, res)
     r8.rule_sequential(S, res)
     r8.rule_consumers(S, res)
+    r8.rule_burst(S, res)
     r8.rule_roles(S, res)
